@@ -62,6 +62,33 @@ def linear_extensions(leafsyns):
     return res
 
 
+def one_extension(leafsyns, rng=None):
+    """One order of the family universe extending every leaf order (None if cyclic); Kahn's algorithm."""
+    fams = []
+    for s in leafsyns:
+        for x in s:
+            if x not in fams:
+                fams.append(x)
+    succ = {f: set() for f in fams}
+    for s in leafsyns:
+        for a, b in zip(s, s[1:]):
+            succ[a].add(b)
+    indeg = {f: 0 for f in fams}
+    for a in fams:
+        for b in succ[a]:
+            indeg[b] += 1
+    order = []
+    ready = [f for f in fams if indeg[f] == 0]
+    while ready:
+        f = ready.pop(rng.randrange(len(ready)) if rng else 0)
+        order.append(f)
+        for b in succ[f]:
+            indeg[b] -= 1
+            if indeg[b] == 0:
+                ready.append(b)
+    return tuple(order) if len(order) == len(fams) else None
+
+
 def ordered_node_label_cost(ev, keep_left, P, L, R, sloss, _memo={}):
     """Segmental-loss cost of one internal node.  ev in SPE/DUP/HGT."""
 
